@@ -248,12 +248,14 @@ class SRTM30:
             and longitude coordinates of the SRTM30 data points within the
             given rectangle.
         """
+        # Row n of the grid below is the cell between 90 - n * dlat and
+        # 90 - (n - 1) * dlat: the first row contains (or, if aligned, lies
+        # just below) lat_max, the last row contains (or lies just above)
+        # lat_min.
         i = (90 - lat_max) / SRTM30._dlat
-        i_max = np.trunc(i)
-        if not i_max < i:
-            i_max = i_max + 1
+        i_max = np.floor(i) + 1
         i = (90 - lat_min) / SRTM30._dlat
-        i_min = np.trunc(i)
+        i_min = np.ceil(i)
         lat_grid = 90 + 0.5 * SRTM30._dlat - np.arange(i_max, i_min + 1) * SRTM30._dlat
 
         j = (lon_max + 180) / SRTM30._dlon
